@@ -18,7 +18,7 @@ TRUSTED = [
 def run_recorded(case, fault_at=None):
     from atsim.potentials import writeSetFLFinnisSinclair, writeTABEAMFinnisSinclair
     from atsim.potentials.eam_tabulation import SetFL_FS_EAMTabulation, TABEAM_FinnisSinclair_EAMTabulation, Excel_FinnisSinclair_EAMTabulation
-    rec = layout.Recorder(); rec.fault_at = fault_at
+    rec = layout.Recorder(); rec.fault_at = fault_at; rec.zero_every = case.get('zero_every')
     eam, pots = ec.build_objects(case, rec)
     w = case['writer']
     if w == 'excel_fs':
